@@ -4,13 +4,18 @@
     tables, the seven built-in definitions transcribed as constants; the laws of C17 are invariants checked
     by TLC over all 256 letters for the built-ins and for every definition drawn from small letter samples
     (alphabets cased and uncased, all pairs of pairing strings incl. mismatched, non-ASCII and non-bijective
-    ones, alphabet x pairing for complementors).  Wrong variants (two of them as found in alphabet.go) must
-    be refuted.
+    ones, alphabet x pairing for complementors; letter slices of up to five letters with letters >= 128 that
+    form well-formed 2- and 3-byte UTF-8 sequences or malformed ones).  Wrong variants (two of them as found
+    in alphabet.go; AllValid reading the slice as text) must be refuted.
 (B) Every case of the bounded model is emitted by TLC (EmitCases); a sample stratified by what the
     specification says about the case is run through the real constructors.
 (C) The real built-in alphabets are dumped over all 256 letters (every accessor), random alphabets,
-    pairings, complementors and letter slices are built; AlphabetTrace.tla recomputes every table from the
-    definition and evaluates the laws on the logged tables.
+    pairings, complementors and letter slices are built (slices also with runs of letters >= 128: lone ones,
+    well-formed UTF-8 of 2..4 bytes whose code point has the low byte of a valid letter, malformed runs; at
+    the start, in the middle, at the end, with an invalid ASCII letter before or after); AlphabetTrace.tla
+    recomputes every table from the definition and evaluates the laws on the logged tables; on slices it
+    demands the first index whose byte is not a valid letter and that IsValid, AllValid and AllValidQLetter
+    agree on every letter.
 A binding self-test corrupts logged fields and expects AlphabetTrace to reject each corruption.
 """
 import concurrent.futures, copy, json, os, random, re, shutil
@@ -22,9 +27,11 @@ NEG = {  # variant -> invariants one of which TLC must report
     "asfound_pairing": ("PairingRejects", "PairingLaws"),
     "index_by_position": ("BuiltinAlphabetLaws", "AlphabetLaws", "NucleotideIndexComplement"),
     "table_no_highbit": ("BuiltinComplementLaws", "PairingLaws"),
+    "allvalid_as_text": ("SliceLaw",),
 }
 THOROUGH = {"MaxDef": "5", "PairSample": "{97, 65, 116, 84, 200}", "MaxPair": "4",
-            "CompSample": "{97, 65, 116, 84}", "MaxCompPair": "3"}
+            "CompSample": "{97, 65, 116, 84}", "MaxCompPair": "3",
+            "SliceSample": "{97, 116, 197, 161, 180, 224}", "MaxSlice": "6"}
 
 
 def _case_of(e):
@@ -66,7 +73,7 @@ def _nontrivial(e):
             or (op == "comp" and len(e["def"]) >= 1 and len(e["s"]) >= 1) or (op == "allvalid" and len(e["w"]) >= 2))
 
 
-def _validate(ck, name, path, work, chunk=1200, par=4):
+def _validate(ck, name, path, work, chunk=1200, par=6):
     """Validate the events of path with AlphabetTrace in parallel chunks; returns (events, fails, drift)
     with 1-based indices into the whole file."""
     evs = vlib.read_ndjson(path)
@@ -151,6 +158,17 @@ def _selftest(ck, evs, work):
     e = find(lambda e: e["op"] == "allvalid" and not e["ok"] and e["pos"] >= 1)
     e["pos"] = e["qpos"] = e["pos"] - 1
     bad.append(("AllValid position", e))
+    high = lambda e: (e["op"] == "allvalid" and not e["ok"] and e["err"] == "" and e["w"][e["pos"]] >= 128
+                      and e["pos"] + 1 < len(e["w"]) and e["w"][e["pos"] + 1] >= 128)
+    e = find(high)
+    e["ok"], e["pos"] = True, -1
+    bad.append(("AllValid passing over a run of letters >= 128 (AllValidQLetter and IsValid as logged)", e))
+    e = find(high)
+    e["wvalid"][e["pos"]] = True
+    bad.append(("IsValid of a letter >= 128 of a slice", e))
+    e = find(high)
+    e["qsingle"][e["pos"]] = True
+    bad.append(("AllValidQLetter of a one-letter slice", e))
     e = find(lambda e: e["op"] == "alpha" and e["err"] == "nonascii")
     a = find(lambda e: e["op"] == "alpha" and e["err"] == "")
     for k in a:
@@ -198,12 +216,16 @@ def run(ck, tier):
         r = vlib.tlc(SPEC, "Alphabet", None, cfg_text=cfg, env={"OUT": cases}, workers=16, timeout=3400)
         vlib.tlc_expect_ok(r, "AlphabetMC")
         ck.mc("AlphabetMC", r, "laws over 256 letters: 7 built-ins, all definitions of the samples")
-        for variant, want in NEG.items():
-            r = vlib.tlc(SPEC, "Alphabet", None, workers=4, timeout=900,
-                         cfg_text=vlib.subst_cfg(SPEC, "AlphabetNeg.cfg", {"Variant": '"%s"' % variant}))
-            if r.violated not in want:
-                raise vlib.Infra("negative control %s not refuted (%s):\n%s" % (variant, r.violated, r.out[-1500:]))
-            ck.mc("AlphabetNeg:" + variant, r, "refuted: %s" % r.violated)
+        with concurrent.futures.ThreadPoolExecutor(max_workers=3) as ex:
+            futs = [(variant, want, ex.submit(
+                vlib.tlc, SPEC, "Alphabet", None, workers=4, timeout=900,
+                cfg_text=vlib.subst_cfg(SPEC, "AlphabetNeg.cfg", {"Variant": '"%s"' % variant})))
+                for variant, want in NEG.items()]
+            for variant, want, fu in futs:
+                r = fu.result()
+                if r.violated not in want:
+                    raise vlib.Infra("negative control %s not refuted (%s):\n%s" % (variant, r.violated, r.out[-1500:]))
+                ck.mc("AlphabetNeg:" + variant, r, "refuted: %s" % r.violated)
         if not os.path.exists(cases):
             raise vlib.Infra("TLC emitted no cases")
         # (B) a stratified sample of the emitted cases through the real constructors
@@ -214,10 +236,14 @@ def run(ck, tier):
                 strata.setdefault((c["kind"], c["expect"]), []).append(line)
         rng = random.Random(ck.seed)
         cap = 3000 if thorough else 350
+        capslice = 1500 if thorough else 200    # slices: per verdict of the specification x widest UTF-8 sequence
         picked = []
         for k in sorted(strata):
             ls = sorted(strata[k])
-            picked += ls if len(ls) <= cap else rng.sample(ls, cap)
+            n = capslice if k[0] == "allvalid" else cap
+            picked += ls if len(ls) <= n else rng.sample(ls, n)
+        if not any(k[0] == "allvalid" and k[1].startswith("text") for k in strata):
+            raise vlib.Infra("TLC emitted no slice whose reading as text differs from its reading as letters")
         ck.extra["emitted_cases"] = {"%s/%s" % (k[0], k[1] or "accepted"): len(v) for k, v in sorted(strata.items())}
         ck.extra["emitted_cases_run"] = len(picked)
         sample = os.path.join(work, "sample.ndjson")
